@@ -335,7 +335,13 @@ impl fmt::Display for FunctionDefinition {
         if self.has_keyword {
             f.write_str("function ")?;
         }
-        write!(f, "{}() {}", self.name, self.body)
+        // A name ending with `$` must be separated from the parentheses, or
+        // `$(` would start a command substitution when parsed again.
+        let separator = match self.name.units.last() {
+            Some(Unquoted(Literal('$'))) => " ",
+            _ => "",
+        };
+        write!(f, "{}{}() {}", self.name, separator, self.body)
     }
 }
 
